@@ -70,6 +70,9 @@ def placement(top: Path, parent: str, cwd: str, spelling: str) -> tuple[Path, st
         tgt = "proj"
     elif spelling == "trailing":
         tgt = "proj/"
+    elif spelling == "mixedAbsRel":
+        rel = {"parent": "proj/sub", "else": f"../{parent}/proj/sub", "checkout": f"../../{parent}/proj/sub"}[cwd]
+        tgt = [str(proj), rel]
     else:  # dotdot
         tgt = {"root": f"../../{parent}/proj", "inside": "..", "else": f"../{parent}/proj",
                "checkout": f"../../{parent}/proj"}[cwd]
@@ -80,7 +83,7 @@ def run_all(proj: Path, cw: Path, tgt: str, cmds: list[str]) -> dict:
     out = {}
     for cmd in cmds:
         os.chdir(cw)
-        r = drive.cli_json([cmd, tgt])
+        r = drive.cli_json([cmd] + (tgt if isinstance(tgt, list) else [tgt]))
         bag = None
         if r["violations"] is not None:
             bag = []
@@ -92,7 +95,8 @@ def run_all(proj: Path, cw: Path, tgt: str, cmds: list[str]) -> dict:
                 else:
                     rel = drive.rel(os.path.join(cw, fp), proj)
                 msg = v["message"].replace(str(proj) + "/", "").replace(str(proj), "")
-                bag.append(canon([v["rule_id"], rel, v["line"], v["column"], _strip_spelling(msg, tgt)]))
+                bag.append(canon([v["rule_id"], rel, v["line"], v["column"],
+                                  _strip_spelling(msg, tgt[0] if isinstance(tgt, list) else tgt)]))
         out[cmd] = {"exit": r["exit"], "bag": bag, "stderr": r["stderr"][-200:]}
     return out
 
